@@ -25,6 +25,13 @@ def base_grids():
                        (('str', '{"a":1}'), ('str', '"x"')), (N.REMOVE, ('time', 12, 34, 0, 0))]))
     B.append(N.mkgrid('2.0', [('r', N.REMOVE)], [('a', []), ('b', [])],
                       [(('str', 'n:1'), ('str', 'a:b')), (N.REMOVE, ('time', 1, 2, 0, 0)), (('str', 'x'), ('uri', 'u:v')), (('ref', 'a', 'x y'), ('bin', 'text/plain'))]))
+    # every text-like catalogue payload (backslashes before URI delimiters, UNC paths, look-alikes ...) in a cell
+    from ref import catalogue as CAT
+    for kind in ('uri', 'str', 'ref', 'bin', 'xstr'):
+        vals = [e.n for e in CAT.for_version('3.0') if e.n[0] == kind]
+        vals += {'uri': [('uri', '\\\\server\\share'), ('uri', 'http://h/a\\:b\\/c\\?d'), ('uri', 'a\\"b\\$c')], 'str': [], 'ref': [], 'bin': [], 'xstr': []}[kind]
+        for i in range(0, len(vals), 12):
+            B.append(N.mkgrid('3.0', [], [('v', [])], [(v,) for v in vals[i:i + 12]]))
     # the same nested grid / dict / list value in several cells (a pre-decoded input may share one object between them)
     inner = N.mkgrid('3.0', [('im', ('str', 'in'))], [('x', [])], [(ONE,), (N.NA,)])
     dd = N.mkdict([('k', ('list', (ONE, ('str', 'v')))), ('m', MK)])
@@ -179,7 +186,7 @@ def run(ctx):
         st.merge(part)
     bounds = [{'second_fractions': len(fr), 'complete': not ctx.quick}]
     for bi in range(len(BASE)):
-        d = 3
+        d = 3 if bi < 12 else 1
         before = st.c.get('executions', 0)
         explore(__name__, 'run_case', d, ctx.seed, ctx.jobs, st, args=(bi,))
         bounds.append({'base_grid': bi, 'max_deviations': d, 'documents': st.c.get('executions', 0) - before})
